@@ -38,7 +38,9 @@ UNITS = [{
     'wraps_types': ['Map', 'State'],
     'prelude': PRELUDE,
     'fns': {
-        'impl State::bits': {'props': G, 'ensures': [(G, 'r == bits_of(*self)')]},
+        # MIRROR clause: bits_of is the specification's copy of the state encoding.  If it fails, the encoding in the code has changed and the
+        # copy is stale: nothing about the collector can be decided until specs/gc.py is updated (the run is undecided, never a violation)
+        'impl State::bits': {'props': G, 'ensures': [(G + ['MIRROR'], 'r == bits_of(*self)')]},
         # Verus ICE on `&u8 >> usize` inside a closure: contract assumed here, discharged by the Kani complete harness gc_map_get
         'impl Map::get': {'props': G, 'trusted': True, 'requires': ['self.wf()'],
                           'ensures': [(G, 'index < self.cap() ==> (r matches Some(s) && bits_of(s) == self.state_bits(index as int))'),
